@@ -276,6 +276,14 @@ def run (ctx):
     work = g.nodes_with_call(lambda c: call_name(c) in ('_call_safe', 'on_close', 'close') and not (call_name(c) == 'close' and norm(c.func.value) == 'self'))
     good = bool(work) and all('self.closed:falsy' in q.fact_strs(g, w) for w in work)
     ctx.ob('R-ONCE', f, "closing is a test-and-set: reported closed exactly once", good, "work only under `not self.closed`" if good else "close handlers can run twice", f, 'D5')
+    # ... and the flag is set before anything foreign runs: a close handler may send a last message or close the worker again
+    sets = [n_ for n_ in setc if n_ is not None and isinstance(n_.ast, ast.Assign) and isinstance(n_.ast.value, ast.Constant) and n_.ast.value.value is True]
+    foreign = g.nodes_with_call(lambda c: call_name(c) in ('_call_safe', 'on_close', '_handle_close'))
+    if sets and foreign:
+      late = [w for w in foreign if not any(g.dominates(s_, w, exc=False) for s_ in sets)]
+      ctx.ob('R-ORDER', f, "the closed flag is set before the close handlers run", not late, "`self.closed = True` dominates the handler call" if not late else
+             "`%s` runs while self.closed is still False: a close handler that sends (send_fast writes to the dead socket - the closed test passes) or calls close() again (the guard passes: handlers run again, recursively) "
+             "breaks 'nothing further is written' and 'reported closed exactly once'" % late[0].text(50), (f.module, late[0].ast) if late else f, 'D5')
   g = q.cfg_of(dosend)
   fat = g.nodes_with_call(lambda c: call_name(c) == 'close')
   okc = any(any(f == 'e.errno != errno.EAGAIN' for f in q.fact_strs(g, n)) for n in fat) and bool(g.nodes_with_call(lambda c: call_name(c) == 'discard'))
